@@ -33,7 +33,7 @@ func (m *machine) step(o Op) error {
 		return err
 	}
 	switch o.Kind {
-	case "save", "snap", "del", "reopen", "conf":
+	case "save", "snap", "del", "reopen", "conf", "install":
 		if err := m.checkBoundaries(o.Start, o.Start+uint64(o.N), o.Index); err != nil {
 			return err
 		}
@@ -90,14 +90,15 @@ type gen struct {
 	budget  int // entries this case may still append (keeps bulk cases below ~1 s)
 	fatLeft int // bytes of fat payload this case may still append
 
-	rotated          bool
-	conflictRotated  bool
-	reopenAfterRot   bool
-	conflictSinceRe  bool
-	allowKnownDefect bool
-	crash            bool // crash_image campaign: some mutating steps run with a directory copy taken mid-way
-	images           int
-	nearRotation     bool
+	rotated             bool
+	conflictRotated     bool
+	reopenAfterRot      bool
+	conflictSinceRe     bool
+	allowKnownDefect    bool
+	crash               bool // crash_image campaign: some mutating steps run with a directory copy taken mid-way
+	images              int
+	nearRotation        bool
+	reopenAfterConflict bool
 }
 
 func (g *gen) fileCount() int {
@@ -410,6 +411,7 @@ func (g *gen) reopen() {
 	}
 	if g.conflictSinceRe {
 		g.c.Class("reopen_after_conflict")
+		g.reopenAfterConflict = true
 	}
 	g.conflictSinceRe = false
 	before := g.m.storeFirst
@@ -561,7 +563,8 @@ func machineProp(campaign string, rwType int, profiles []string, allowKnown, cra
 		// every history ends with: compare everything, reopen, compare everything
 		g.do(Op{Kind: "scan"})
 		g.reopen()
-		if (!crash && (g.conflictRotated || g.reopenAfterRot)) || (crash && g.images > 0) {
+		smallOnly := len(profiles) == 1 && profiles[0] == "small"
+		if (!crash && (g.conflictRotated || g.reopenAfterRot || (smallOnly && g.reopenAfterConflict))) || (crash && g.images > 0) {
 			c.Nontrivial(g.cs)
 		}
 		if len(g.cs.Ops) <= 14 {
